@@ -170,6 +170,28 @@ ADDENDA = {
     "C18": " The codec alphabet contains NBSP and form feed; whole programs as for C04 (single-file ones).",
 }
 
+# additions of round 6 (appended after ADDENDA by bin/mkmanifest)
+ROUND6 = {
+    "C01": " Round 6: 26 construct kinds (loops whose body ends in an unconditional break / return behind the nested part); GenNames has 56 identifiers (incl. names that look like compiler-generated labels) x 10 roles (class name, method name).",
+    "C03": " Round 6: three dead-code contexts (the faulted statement follows an unconditional return / break / continue in its block), a value returned from a block of a void function nested in a typed one, a name known only as a sibling method's parameter, slots of function type re-assigned with a function of another signature.",
+    "C04": " Round 6: GenSize.tla - one literal of 1 365 .. 70 000 copies of a 1- to 4-byte unit (records and text lines around 4 KiB / 8 KiB / 64 KiB); the entry file is spelled `./main.ms` / `./main.mmm` for every program in which no module imports the entry module; label-like class / method names and a method declared twice are in the pool.",
+    "C18": " Round 6: as C04 (GenSize, `./` spelling, label-like names, a method declared twice).",
+    "C06": " Round 6: batched rendering - every tree whose folded rendering compiles is also compiled in batches of 40 folded expressions per compilation unit, neighbours differing only in the kinds of their literals, in both orders (what the compiler folds must not depend on what else it folded).",
+    "C07": " Round 6: GenCapture family `late_*`: the maker declares a same-named local / typed local / loop counter only after the literals were made.",
+    "C08": " Round 6: a class whose constructor parameters and locals are named like its fields, used crosswise and after the fields were set.",
+    "C09": " Round 6: interprocedural layer - ExploreVM runs twice; the first pass records how every activation can end (operand-depth interval at `ret` / at the end), the second judges ReturnArityUniform per function (a function that certainly returns a value on one path and certainly none on another breaks the operand shape at its call sites) and gives `call_self` the function's own result count; the pool now also holds the feature generators' programs (GenCapture, GenNames, GenObj, GenHeap, GenOrder) and the fault catalogue (an ill-typed program the compiler accepts is explored like any other).",
+    "C10": " Round 6: context `block inside a nested function`; shadowing dimension {none, a same-named local copy `x = x` at the start of the nested function / method - `modify` still denotes the const (rejected), every other form the local (accepted, const unchanged, judged against MSLang) -, a sibling method with a parameter of that name}; module members written from inside function literals and methods.",
+    "C11": " Round 6: a second import of the shared module in the same file after its state has changed (by name: bound to the current value; as a module).",
+    "C12": " Round 6: 22 uses incl. a bare `get` statement and `get` behind multi-byte text on its source line.",
+    "C13": " Round 6: every (re-binding, mutation) pair over nested lists is in the quick level (the depth of sharing of `clone`).",
+    "C14": " Round 6: NumTables!ConvFloats - 27 floats around the boundaries of to_int / to_byte / to_bigint (fractional parts sticking out past the last representable integer, +-2^127) and around .5 for round / floor / ceil.",
+    "C15": " Round 6: DIVZ - an operand without calls or writes that fails when it is evaluated (`7 / zz > 0`), so that a lost short-circuit shows as a failure; rep / repr - `int * str` and `str * int` with logging operands (operands of different types).",
+    "C16": " Round 6: constant arithmetic over 18 boundary operands x 7 operators x 18 operands x 3 contexts (MIN / -1, MIN % -1, shift amounts, zero divisors of every kind); escapes the language does not have in front of 2-, 3- and 4-byte characters.",
+    "C17": " Round 6: self-recursive levels (three open activations of one function; plain and tail recursion).",
+    "C19": " Round 6: the bytecode function that makes the foreign call was itself called with arguments (fn_args / tail_args): an empty operand stack is still the empty slice.",
+    "C20": " Round 6: DIR itself is part of the specification's state (`root`): it is a directory and stays, also when the sweep leaves it empty.",
+}
+
 NOT_APPLICABLE = {}
 
 ALL = ["C%02d" % i for i in range(1, 21)]
